@@ -27,6 +27,9 @@ type c12Case struct {
 	OrderOnly    bool `json:"order_only"`
 	// BareDefs: the receiver's definitions are mere identifiers (no attributes, no parent)
 	BareDefs bool `json:"bare_defs,omitempty"`
+	// OddKeys: the argument's maps are keyed by something else than the identifiers (a list put together by hand); a
+	// definition is what its ID field says
+	OddKeys bool `json:"odd_keys,omitempty"`
 }
 
 func init() { register("c12", checkC12) }
@@ -125,6 +128,24 @@ func checkC12(c c12Case) string {
 		return ""
 	}
 	b, bItems := mkSide(c.B, c.BStyles, c.BRegions, c.BareArgument, "B")
+	if c.OddKeys {
+		// keys taken from the other end of the identifier pool, so that a key may equal another definition's identifier
+		rekey := map[string]string{"a": "d", "b": "zz", "c": "a", "d": "k-d"}
+		if b.Styles != nil {
+			m := map[string]*astisub.Style{}
+			for id, v := range b.Styles {
+				m[rekey[id]] = v
+			}
+			b.Styles = m
+		}
+		if b.Regions != nil {
+			m := map[string]*astisub.Region{}
+			for id, v := range b.Regions {
+				m[rekey[id]] = v
+			}
+			b.Regions = m
+		}
+	}
 	// snapshots
 	aStyles, aRegions := map[string]*astisub.Style{}, map[string]*astisub.Region{}
 	for k, v := range a.Styles {
@@ -181,32 +202,35 @@ func checkC12(c c12Case) string {
 			return fmt.Sprintf("receiver's style %q was replaced or lost", id)
 		}
 	}
-	for id, st := range bStyles {
-		if _, clash := aStyles[id]; clash {
+	unionS, unionR := unionKeys(aStyles, nil), unionKeys(aRegions, nil)
+	for _, st := range bStyles {
+		unionS[st.ID] = true
+		if _, clash := aStyles[st.ID]; clash {
 			continue
 		}
-		if a.Styles[id] != st {
-			return fmt.Sprintf("argument's style %q missing from the merged styles", id)
+		if a.Styles[st.ID] != st {
+			return fmt.Sprintf("argument's style %q missing from the merged styles", st.ID)
 		}
 	}
-	if len(a.Styles) != len(unionKeys(aStyles, bStyles)) {
-		return fmt.Sprintf("merged styles have %d entries, union has %d", len(a.Styles), len(unionKeys(aStyles, bStyles)))
+	if len(a.Styles) != len(unionS) {
+		return fmt.Sprintf("merged styles have %d entries, union (by identifier) has %d", len(a.Styles), len(unionS))
 	}
 	for id, rg := range aRegions {
 		if a.Regions[id] != rg {
 			return fmt.Sprintf("receiver's region %q was replaced or lost", id)
 		}
 	}
-	for id, rg := range bRegions {
-		if _, clash := aRegions[id]; clash {
+	for _, rg := range bRegions {
+		unionR[rg.ID] = true
+		if _, clash := aRegions[rg.ID]; clash {
 			continue
 		}
-		if a.Regions[id] != rg {
-			return fmt.Sprintf("argument's region %q missing from the merged regions", id)
+		if a.Regions[rg.ID] != rg {
+			return fmt.Sprintf("argument's region %q missing from the merged regions", rg.ID)
 		}
 	}
-	if len(a.Regions) != len(unionKeys(aRegions, bRegions)) {
-		return fmt.Sprintf("merged regions have %d entries, union has %d", len(a.Regions), len(unionKeys(aRegions, bRegions)))
+	if len(a.Regions) != len(unionR) {
+		return fmt.Sprintf("merged regions have %d entries, union (by identifier) has %d", len(a.Regions), len(unionR))
 	}
 	// B unchanged
 	if !reflect.DeepEqual(b.Items, bSnapItems) && !(len(b.Items) == 0 && len(bSnapItems) == 0) {
@@ -220,18 +244,33 @@ func checkC12(c c12Case) string {
 			return "argument's cue: " + m
 		}
 	}
-	if len(b.Styles) != len(bStyles) || len(b.Regions) != len(bRegions) || (b.Styles == nil) != bNilStyles || (b.Regions == nil) != bNilRegions {
-		return "argument's maps were modified"
-	}
-	for id, st := range bStyles {
-		if b.Styles[id] != st || st.ID != id || st.InlineStyle.SSAFontName != "B"+id {
-			return "argument's style definitions were modified"
+	bUnchanged := func() string {
+		if len(b.Styles) != len(bStyles) || len(b.Regions) != len(bRegions) || (b.Styles == nil) != bNilStyles || (b.Regions == nil) != bNilRegions {
+			return "argument's maps were modified"
 		}
-	}
-	for id, rg := range bRegions {
-		if b.Regions[id] != rg || rg.ID != id || rg.InlineStyle.WebVTTWidth != "B"+id {
-			return "argument's region definitions were modified"
+		for id, st := range bStyles {
+			if b.Styles[id] != st || (st.ID != id) != c.OddKeys || st.InlineStyle.SSAFontName != "B"+st.ID {
+				return "argument's style definitions were modified"
+			}
 		}
+		for id, rg := range bRegions {
+			if b.Regions[id] != rg || (rg.ID != id) != c.OddKeys || rg.InlineStyle.WebVTTWidth != "B"+rg.ID {
+				return "argument's region definitions were modified"
+			}
+		}
+		return ""
+	}
+	if m := bUnchanged(); m != "" {
+		return m
+	}
+	// a third list is merged into the receiver afterwards: the first argument has nothing to do with it
+	third, _ := mkSide(c.A[:len(c.A)/2], []string{"third"}, []string{"third"}, false, "C")
+	a.Merge(third)
+	if a.Styles["third"] != third.Styles["third"] || a.Regions["third"] != third.Regions["third"] {
+		return "definitions of a third list merged afterwards are missing from the receiver"
+	}
+	if m := bUnchanged(); m != "" {
+		return "after a third list was merged into the receiver: " + m
 	}
 	return ""
 }
@@ -301,6 +340,7 @@ func TestC12(t *testing.T) {
 			BareReceiver: rapid.IntRange(0, 3).Draw(rt, "bareA") == 0,
 			BareArgument: rapid.IntRange(0, 3).Draw(rt, "bareB") == 0,
 			BareDefs:     rapid.IntRange(0, 3).Draw(rt, "baredefs") == 0,
+			OddKeys:      rapid.IntRange(0, 4).Draw(rt, "oddkeys") == 0,
 		}
 		if rapid.IntRange(0, 4).Draw(rt, "samefile") == 0 && len(c.A) > 0 {
 			// two readings of the same file, or two files sharing cues: the argument's cues equal cues of the receiver
@@ -336,6 +376,9 @@ func TestC12(t *testing.T) {
 			}
 		}
 		var ls []string
+		if c.OddKeys && len(c.BStyles)+len(c.BRegions) > 0 {
+			ls = append(ls, "argument-maps-keyed-by-something-else-than-the-ids")
+		}
 		if tie {
 			ls = append(ls, "merge-tie-across-lists")
 		}
